@@ -618,6 +618,7 @@ static int run_jet(const struct eventloop *loop, const struct cmdline_config *co
 
 	int ret = loop->run(loop->this_ptr, &go_ahead);
 	destroy_all_peers();
+	close_all_http_connections();
 	return ret;
 }
 
